@@ -76,12 +76,14 @@ def generate(rng, tier, index):
     relabel = {}
     if labels and rng.random() < 0.8:
         # legal label characters beyond [A-Za-z0-9_]: '-' and an inner '.' (genid / skolem style labels)
-        style = rng.choice(["_:z%d", "_:z%d", "_:genid-%d", "_:n.%dx", "_:b_%d-a.b", "underscores"])
+        style = rng.choice(["_:z%d", "_:z%d", "_:genid-%d", "_:n.%dx", "_:b_%d-a.b", "underscores", "swap", "swap"])
         if style == "_:b_%d-a.b" and rng.random() < 0.5:
             style = "mixed_long"
         if style == "mixed_long":
             # long labels next to short ones of the form _:b<n>
             new = [("_:averyveryveryverylonglabelforablanknode%d" % i) if i % 2 == 0 else ("_:b%d" % (i // 2)) for i in range(len(labels))]
+        elif style == "swap":
+            new = list(labels)      # the same labels handed to other nodes (the document keeps its size)
         elif style == "underscores":
             new = ["_:" + "_" * i + "n" for i in range(len(labels))]      # _:n, _:_n, _:__n ... are distinct labels
         else:
@@ -105,7 +107,8 @@ def generate(rng, tier, index):
     if fmt == "turtle_iter" and rng.random() < 0.6:
         ttl_prefixed = "dt" if rng.random() < 0.3 else "plain"
     return {"family": family, "format": fmt, "schema": schema, "ttl_prefixed": ttl_prefixed, "graph": gen.L(triples), "target": target, "options": options,
-            "ns": gen.gen_namespaces(rng), "relabel": relabel, "orders": [[p1, p2]]}
+            "ns": gen.gen_namespaces(rng), "relabel": relabel, "orders": [[p1, p2]],
+            "via_file": family == "document" and rng.random() < 0.35}
 
 
 def _relabel(triples, m):
@@ -240,11 +243,17 @@ def execute(scen, scratch):
                     texts.append(out.text)
         else:
             fmt = scen["format"]
-            ref = run_once(_kwargs(scen, raw_graph=_doc(triples, fmt, scen), input_format=fmt))
+
+            def src(doc):
+                # either the text itself, or one file path that is rewritten before every run (a regenerated export)
+                if scen.get("via_file"):
+                    return {"graph_file_input": sim.write_file("export." + fmt.replace("_", "."), doc)}
+                return {"raw_graph": doc}
+            ref = run_once(_kwargs(scen, input_format=fmt, **src(_doc(triples, fmt, scen))))
             runs += 1
             for (p1, _p2) in scen["orders"]:
                 perm = [moved[i] for i in p1]
-                out = run_once(_kwargs(scen, raw_graph=_doc(perm, fmt, scen), input_format=fmt))
+                out = run_once(_kwargs(scen, input_format=fmt, **src(_doc(perm, fmt, scen))))
                 runs += 1
                 if p1 != list(range(n)):
                     differs = True
